@@ -40,6 +40,31 @@ Fixpoint last_opt {A} (l : list A) : option A :=
 Definition last1 {A} (l : list A) : list A :=                       (* l[-1:] *)
   match last_opt l with Some x => [x] | None => [] end.
 
+(* index_of x l = position of the first occurrence of x in l *)
+Fixpoint index_of (x : Qc) (l : qv) : option nat :=
+  match l with [] => None | y :: r => if qc_eqb x y then Some O else option_map S (index_of x r) end.
+Definition nthq (l : qv) (k : nat) : Qc := nth k l 0%Qc.
+Fixpoint opt_all {A} (l : list (option A)) : option (list A) :=
+  match l with
+  | [] => Some []
+  | Some a :: r => match opt_all r with Some r' => Some (a :: r') | None => None end
+  | None :: _ => None
+  end.
+
+(* numpy broadcasting of a scalar / one-element source term against a vector of n nodes: dt*rhs + vector *)
+Definition bc (n : nat) (b : qv) : qv := match b with [c] => repeat c n | _ => b end.
+
+(* purely relative closeness: |a_i - b_i| <= tol * scale for all i, scale = largest |entry| of the expected object
+   (tol = 0: equality).  No absolute part: comparisons are invariant under rescaling of the solution values. *)
+Definition qmax (a b : Q) : Q := if Qle_bool a b then b else a.
+Definition maxabs (v : qv) : Q := fold_right (fun x m => qmax (Qabs (this x)) m) 0%Q v.
+Definition maxabs2 (m : qm) : Q := fold_right (fun r acc => qmax (maxabs r) acc) 0%Q m.
+Definition vrel (tol scale : Q) (a b : qv) : bool :=
+  list_eqb (fun x y => Qle_bool (Qabs (this x - this y)) (tol * scale)) a b.
+Definition mrel (tol scale : Q) (a b : qm) : bool := list_eqb (vrel tol scale) a b.
+Definition qcl_rel (tol : Q) (a b : qv) : bool := vrel tol (maxabs b) a b.
+Definition qcll_rel (tol : Q) (a b : qm) : bool := mrel tol (maxabs2 b) a b.
+
 (* ---------------- LinearPDE._solve_linear_system ---------------- *)
 (* what a user-supplied linalg_solve returns: the solution alone, or a tuple (solution, val1, val2, ...) *)
 Inductive sret (I : Type) := SPlain (x : qv) | STuple (x : qv) (info : list I).
@@ -94,10 +119,13 @@ Inductive tobs_arg := TONone | TOFinal | TOAll | TOBadStr | TOArr (l : qv).   (*
 Record quirks := mkQ {
   q_method_case : bool;    (* solve() compares the un-lowered method string: case variants run no loop and fail on `info` *)
   q_be_single : bool;      (* backward Euler on a one-level time grid never binds `info`: UnboundLocalError *)
-  q_tobs_all : bool        (* "final time" test is np.all(time_steps[-1:] == time_obs): broadcasts over time_obs *)
+  q_tobs_all : bool;       (* "final time" test is np.all(time_steps[-1:] == time_obs): broadcasts over time_obs *)
+  q_spline_route : bool    (* only (equal grids, final time) is restricted directly; every other request, also one whose nodes and
+                              times all coincide with stored ones, goes through RectBivariateSpline (open finding; repair proposed) *)
 }.
-Definition quirks_code := mkQ true true true.
-Definition quirks_fixed := mkQ false false false.
+Definition quirks_code := mkQ true true true true.          (* the code as first met *)
+Definition quirks_fixed := mkQ false false false true.      (* after the three repairs that are applied in /repo *)
+Definition quirks_repaired := mkQ false false false false.  (* ... and after fixes/C18_observe_restrict_coinciding.diff *)
 
 (* ================================================================================================ *)
 Section PDE.
@@ -151,7 +179,8 @@ Fixpoint fe_loop (p : P) (t : Qc) (rest : qv) (u : qv) : res (list qv) :=
   match rest with
   | [] => Ok []
   | t' :: rest' =>
-      let '(A, b, _) := form p t in
+      let '(A, b0, _) := form p t in
+      let b := bc (length u) b0 in
       if wf_sys (length u) A b then
         let u' := fe_step A b u (t' - t)%Qc in
         match fe_loop p t' rest' u' with Ok ls => Ok (u' :: ls) | Er e => Er e end
@@ -168,7 +197,8 @@ Fixpoint be_loop (p : P) (k : nat) (t : Qc) (rest : qv) (u : qv) (info : option 
   match rest with
   | [] => Ok ([], info)
   | t' :: rest' =>
-      let '(A, b, _) := form p t' in
+      let '(A, b0, _) := form p t' in
+      let b := bc (length u) b0 in
       if wf_sys (length u) A b then
         let '(M, r) := be_system A b u (t' - t)%Qc in
         let '(u', i') := solve_linear_system k M r in
@@ -233,14 +263,37 @@ Variable obsmap : option (arr -> res arr).
 (* RectBivariateSpline(grid_sol, time_steps, solution)(grid_obs, time_obs); solution given by its time levels *)
 Variable interp2 : qv -> qv -> list qv -> qv -> qv -> res qm.
 
+(* proposed repair of the spline route: a request all of whose nodes and times are stored ones is restricted exactly.
+   Rows: positions of the grid_obs nodes in grid_sol (all nodes when the grids are equal); columns: positions of the
+   time_obs entries in time_steps (first occurrence). *)
+Definition coincide_rows (G : grids) (levels : list qv) : option (list nat) :=
+  if g_eq G then Some (seq 0 (length (hd [] levels)))
+  else match g_sol G, g_obs G with
+       | Some gs, Some go => opt_all (map (fun x => index_of x gs) go)
+       | _, _ => None
+       end.
+Definition coincide_cols (times tobs : qv) : option (list nat) := opt_all (map (fun t => index_of t times) tobs).
+Definition restrict_to (rows cols : list nat) (levels : list qv) : qm :=
+  map (fun a => map (fun b => nth a (nth b levels []) 0%Qc) cols) rows.
+
+Definition coincide_restriction (G : grids) (times tobs : qv) (levels : list qv) : option qm :=
+  if q_spline_route Q then None
+  else match coincide_rows G levels, coincide_cols times tobs with
+       | Some rows, Some cols => Some (restrict_to rows cols levels)
+       | _, _ => None
+       end.
+
 Definition td_observe (G : grids) (times tobs : qv) (levels : list qv) : res (bool * arr) :=
   let restr := g_eq G && time_test times tobs in
-  let pre := if restr
+  let coin := coincide_restriction G times tobs levels in
+  let restr := restr || match coin with Some _ => true | None => false end in
+  let pre := if g_eq G && time_test times tobs
              then match last_opt levels with Some u => Ok (A1 u) | None => Er EIndex end     (* solution[..., -1] *)
-             else match g_sol G, g_obs G with
+             else match coin with Some m => Ok (A2 m) | None =>
+                  match g_sol G, g_obs G with
                   | Some gs, Some go => match interp2 gs times levels go tobs with Ok m => Ok (A2 m) | Er e => Er e end
                   | _, _ => Er EValue                          (* RectBivariateSpline(None, ...) : ValueError *)
-                  end in
+                  end end in
   match pre with
   | Er e => Er e
   | Ok a => match apply_obsmap obsmap a with
@@ -248,6 +301,18 @@ Definition td_observe (G : grids) (times tobs : qv) (levels : list qv) : res (bo
             | Ok b => Ok (negb restr, if (length tobs =? 1)%nat then squeeze b else b)
             end
   end.
+
+(* observe() on a solution with two space axes (solution.ndim = 3; time levels are matrices): solution[..., -1] on the
+   restriction route, ValueError on the interpolation route ("not supported"); with the proposed repair and equal grids a
+   request at stored times is restricted, too (one matrix per requested time) *)
+Definition td_observe_2dspace (G : grids) (times tobs : qv) (levels : list qm) : res (list qm) :=
+  if g_eq G && time_test times tobs
+  then match last_opt levels with Some u => Ok [u] | None => Er EIndex end
+  else if q_spline_route Q then Er EValue
+       else match (if g_eq G then coincide_cols times tobs else None) with
+            | Some cols => Ok (map (fun b => nth b levels []) cols)
+            | None => Er EValue
+            end.
 
 (* PDEModel._forward_func: assemble(parameter=x); sol, info = solve(); observe(sol) -- `prev` is whatever
    parameter an earlier call left in the object *)
@@ -314,17 +379,19 @@ Definition solver_of (tol : Q) (ss : solver_spec) (k : nat) (A : qm) (b : qv) : 
   | SSFake (Some tag) => STuple (fake_solve A b) [Z.of_nat k; tag]
   | SSTable tbl =>
       match nth_error tbl k with
-      | Some (A', b', r) => if qcll_eqb A' A && qcl_close tol b' b then r else SPlain []
+      | Some (A', b', r) => if qcll_eqb A' A && qcl_rel tol b' b then r else SPlain []
       | None => SPlain []
       end
   end.
-(* certificate: every recorded answer satisfies the law of a linear solver, A x = b (to 1e-9 per component) *)
+(* certificate: every recorded answer satisfies the law of a linear solver, A x = b, to 1e-9 relative to
+   max|b| + n max|A| max|x| (backward-error normalisation; no absolute part) *)
+Definition law_scale (A : qm) (x b : qv) : Q := maxabs b + inject_Z (Z.of_nat (length x)) * maxabs2 A * maxabs x.
 Definition sret_sol {I} (r : sret I) : qv := fst (split_ret r).
 Definition solver_table_ok (ss : solver_spec) : bool :=
   match ss with
   | SSFake _ => true
   | SSTable tbl => forallb (fun e : sentry => let '(A, b, r) := e in
-                     (length (sret_sol r) =? length b)%nat && qcl_close tol9 (qmatvec A (sret_sol r)) b) tbl
+                     (length (sret_sol r) =? length b)%nat && vrel tol9 (law_scale A (sret_sol r) b) (qmatvec A (sret_sol r)) b) tbl
   end.
 
 (* observation maps *)
@@ -362,25 +429,22 @@ Record i1entry := mkI1 { i1_gs : qv; i1_sol : qv; i1_go : qv; i1_out : res qv }.
 Record i2entry := mkI2 { i2_gs : qv; i2_ts : qv; i2_sol : list qv; i2_go : qv; i2_to : qv; i2_out : res qm }.
 Definition interp1_of (tol : Q) (tb : list i1entry) (gs sol go : qv) : res qv :=
   match tb with
-  | e :: _ => if qcl_eqb (i1_gs e) gs && qcl_close tol (i1_sol e) sol && qcl_eqb (i1_go e) go then i1_out e else Er EOther
+  | e :: _ => if qcl_eqb (i1_gs e) gs && qcl_rel tol (i1_sol e) sol && qcl_eqb (i1_go e) go then i1_out e else Er EOther
   | [] => Er EOther
   end.
 Definition interp2_of (tol : Q) (tb : list i2entry) (gs ts : qv) (sol : list qv) (go to : qv) : res qm :=
   match tb with
-  | e :: _ => if qcl_eqb (i2_gs e) gs && qcl_eqb (i2_ts e) ts && qcll_close tol (i2_sol e) sol
+  | e :: _ => if qcl_eqb (i2_gs e) gs && qcl_eqb (i2_ts e) ts && qcll_rel tol (i2_sol e) sol
                  && qcl_eqb (i2_go e) go && qcl_eqb (i2_to e) to then i2_out e else Er EOther
   | [] => Er EOther
   end.
-(* law of an interpolant: exact at the nodes.  index_of x l = position of x in l *)
-Fixpoint index_of (x : Qc) (l : qv) : option nat :=
-  match l with [] => None | y :: r => if qc_eqb x y then Some O else option_map S (index_of x r) end.
-Definition nthq (l : qv) (k : nat) : Qc := nth k l 0%Qc.
+(* law of an interpolant: exact at the nodes *)
 Definition i1_law_ok (e : i1entry) : bool :=
   match i1_out e with
   | Er _ => true
   | Ok out => (length out =? length (i1_go e))%nat &&
       forallb (fun i => match index_of (nthq (i1_go e) i) (i1_gs e) with
-                        | Some a => qc_close tol9 (nthq out i) (nthq (i1_sol e) a)
+                        | Some a => Qle_bool (Qabs (this (nthq out i) - this (nthq (i1_sol e) a))) (tol9 * maxabs (i1_sol e))
                         | None => true end) (seq 0 (length (i1_go e)))
   end.
 Definition i2_law_ok (e : i2entry) : bool :=
@@ -391,7 +455,7 @@ Definition i2_law_ok (e : i2entry) : bool :=
         let row := nth i out [] in
         (length row =? length (i2_to e))%nat &&
         forallb (fun j => match index_of (nthq (i2_go e) i) (i2_gs e), index_of (nthq (i2_to e) j) (i2_ts e) with
-                          | Some a, Some b => qc_close tol9 (nthq row j) (nthq (nth b (i2_sol e) []) a)
+                          | Some a, Some b => Qle_bool (Qabs (this (nthq row j) - this (nthq (nth b (i2_sol e) []) a))) (tol9 * maxabs2 (i2_sol e))
                           | _, _ => true end) (seq 0 (length (i2_to e)))) (seq 0 (length (i2_go e)))
   end.
 
@@ -400,9 +464,9 @@ Definition res_close {A} (cl : A -> A -> bool) (x y : res A) : bool :=
   match x, y with Ok a, Ok b => cl a b | Er e, Er f => err_eqb e f | _, _ => false end.
 Definition arr_close (tol : Q) (a b : arr) : bool :=
   match a, b with
-  | A0 x, A0 y => qc_close tol x y
-  | A1 x, A1 y => qcl_close tol x y
-  | A2 x, A2 y => qcll_close tol x y
+  | A0 x, A0 y => qcl_rel tol [x] [y]
+  | A1 x, A1 y => qcl_rel tol x y
+  | A2 x, A2 y => qcll_rel tol x y
   | _, _ => false
   end.
 Definition info_eqb (a b : option (list Z)) : bool := opt_eqb zl_eqb a b.
@@ -437,7 +501,7 @@ Definition td_obs_close (tol otol : Q) (a b : td_obs) : bool :=
   match a, b with
   | TInitErr e, TInitErr f => err_eqb e f
   | TSolveErr e, TSolveErr f => err_eqb e f
-  | TRun l i o, TRun l' i' o' => qcll_close tol l l' && info_eqb i i' && res_close (obs_close otol) o o'
+  | TRun l i o, TRun l' i' o' => qcll_rel tol l l' && info_eqb i i' && res_close (obs_close otol) o o'
   | _, _ => false
   end.
 
@@ -483,7 +547,7 @@ Definition ss_run (c : ss_cfg) (assembled : bool) (p : qv) : ss_obs :=
 Definition ss_obs_close (tol otol : Q) (a b : ss_obs) : bool :=
   match a, b with
   | SSolveErr e, SSolveErr f => err_eqb e f
-  | SRun l i o, SRun l' i' o' => qcl_close tol l l' && info_eqb i i' && res_close (obs_close otol) o o'
+  | SRun l i o, SRun l' i' o' => qcl_rel tol l l' && info_eqb i i' && res_close (obs_close otol) o o'
   | _, _ => false
   end.
 Definition check_ss (c : ss_cfg) (assembled : bool) (p : qv) (observed : ss_obs) : bool :=
@@ -514,3 +578,11 @@ Definition check_gradient (g : option (qm * qm)) (j : option (qm * qm)) (a d : Q
   let gw := option_map (fun G => fun dir w => qmattvec npar (aff_mat (fst G) (snd G) w) dir) g in
   let jw := option_map (fun J => fun w => aff_mat (fst J) (snd J) w) j in
   res_close qcl_eqb observed (gradient_func qv gw jw npar direction (affine_par2fun a d wrt)).
+
+(* observe() on solutions with two space axes: only the route taken and the slices returned *)
+Definition check_observe_2dspace (q : quirks) (gs go : grid) (times : qv) (ta : tobs_arg) (levels : list qm)
+           (observed : res (list qm)) : bool :=
+  match parse_time_obs times ta with
+  | Er _ => false
+  | Ok tobs => res_close (list_eqb qcll_eqb) observed (td_observe_2dspace q (init_grids gs go) times tobs levels)
+  end.
